@@ -434,6 +434,14 @@ func (x *ksExec) Exec(a []string) string {
 				mn = mn + "\n"
 			case "5":
 				mn = " " + strings.Join(words[:len(words)/2], " ") + " \t " + strings.Join(words[len(words)/2:], "  ") + "\n"
+			case "6": // the same words in another letter case are NOT list words: the restore must be refused
+				mn = strings.ToUpper(words[0][:1]) + words[0][1:] + " " + strings.Join(words[1:], " ")
+			case "7":
+				mn = strings.ToUpper(mn)
+			case "8":
+				m := len(words) / 2
+				words[m] = strings.ToUpper(words[m][:1]) + words[m][1:]
+				mn = strings.Join(words, " ")
 			default:
 				return "bad-op"
 			}
